@@ -15,5 +15,5 @@ import Abmarl.Props.Examples
 #print axioms Abmarl.C07_PredatorPrey
 #print axioms Abmarl.C07_MazeNavigation
 #print axioms Abmarl.C07_TrafficCorridor
-#print axioms Abmarl.C07_MultiMaze_partial
 #print axioms Abmarl.Ex.ex_WF
+#print axioms Abmarl.C07_MultiMaze
